@@ -138,7 +138,7 @@ def _dump(v, mode="python"):
 
 
 # ------------------------------------------------------ clip evaluations
-MATCH_PATTERNS = ["correct", "missing_one", "dup_source", "dup_target", "foreign_source", "foreign_target", "one_sided", "both_none", "extra_unpaired_dup", "shuffled"]
+MATCH_PATTERNS = ["correct", "missing_one", "dup_source", "dup_target", "foreign_source", "foreign_target", "one_sided", "both_none", "extra_unpaired_dup", "shuffled", "dup_source_modified_copy", "dup_target_modified_copy"]
 
 
 def arrangement(rng, na, npred, pattern):
@@ -155,6 +155,10 @@ def arrangement(rng, na, npred, pattern):
         m.append([rng.randrange(npred), None])
     elif pattern == "dup_target" and na:
         m.append([None, rng.randrange(na)])
+    elif pattern == "dup_source_modified_copy" and npred:
+        m.append([f"M{rng.randrange(npred)}", None])     # same uuid, other content (re-scored prediction)
+    elif pattern == "dup_target_modified_copy" and na:
+        m.append([None, f"M{rng.randrange(na)}"])        # same uuid, other content (annotation with an extra tag)
     elif pattern == "foreign_source":
         m.append(["F", None])
     elif pattern == "foreign_target":
@@ -175,8 +179,9 @@ def ref_clip_evaluation(na, npred, same_clip, matches, score):
         return False
     if any(s is None and t is None for s, t in matches):
         return False
-    src = [s for s, _ in matches if s is not None]
-    tgt = [t for _, t in matches if t is not None]
+    _i = lambda x: int(x[1:]) if isinstance(x, str) and x.startswith("M") else x
+    src = [_i(s) for s, _ in matches if s is not None]
+    tgt = [_i(t) for _, t in matches if t is not None]
     if len(src) != len(set(src)) or len(tgt) != len(set(tgt)):
         return False
     if set(src) != set(range(npred)) or set(tgt) != set(range(na)):
@@ -201,8 +206,15 @@ def judge_clip_evaluation(ctx, seed, na, npred, same_clip, matches, score):
         cp = data.ClipPrediction(uuid=g.uid(), clip=clip2, sound_events=preds)
         ms = []
         for s, t in matches:
-            so = fp if s == "F" else (None if s is None else preds[s])
-            to = fa if t == "F" else (None if t is None else anns[t])
+            def mod(x, pool, kind):
+                if isinstance(x, str) and x.startswith("M"):
+                    base = pool[int(x[1:])]
+                    if kind == "pred":
+                        return base.model_copy(update={"score": 0.123, "tags": []})
+                    return base.model_copy(update={"tags": list(base.tags) + [g.tag(fresh=True)], "notes": []})
+                return pool[x]
+            so = fp if s == "F" else (None if s is None else mod(s, preds, "pred"))
+            to = fa if t == "F" else (None if t is None else mod(t, anns, "ann"))
             ms.append(dict(uuid=g.uid(), source=so, target=to, affinity=0.5 if (so and to) else 0.0))
         return ca, cp, ms
 
